@@ -112,9 +112,12 @@ func (p *proxy) call(ctx erpc.UnknownCallCtx) (interface{}, *erpc.Status) {
 	}
 	label.ServiceMethod = ctx.ServiceMethod()
 	callcmd := p.callForwarder(&label).Call(label.ServiceMethod, ctx.InputBodyBytes(), &result, settings...)
-	callcmd.InputMeta().VisitAll(func(key, value []byte) {
-		ctx.SetMeta(goutil.BytesToString(key), goutil.BytesToString(value))
-	})
+	// there is no reply metadata if the backend call failed before a reply arrived
+	if inputMeta := callcmd.InputMeta(); inputMeta != nil {
+		inputMeta.VisitAll(func(key, value []byte) {
+			ctx.SetMeta(goutil.BytesToString(key), goutil.BytesToString(value))
+		})
+	}
 	stat := callcmd.Status()
 	if !stat.OK() && stat.Code() < 200 && stat.Code() > 99 {
 		// build a new status: stat may be one of the framework's shared statuses
